@@ -304,6 +304,8 @@ void gvt_msg_drain(void)
 			simtime_t drained_gvt = gvt_phase_run();
 			if(unlikely(drained_gvt != 0.0))
 				stats_on_gvt(drained_gvt);
+			// the pending reduction completes only once the remote messages still in flight have been received
+			mpi_remote_msg_drain();
 			continue;
 		}
 		if(!counted) {
